@@ -3,8 +3,11 @@ package evx
 import (
 	"context"
 	"crypto/ed25519"
+	crand "crypto/rand"
+	"crypto/sha256"
 	"fmt"
 	"math/big"
+	"os"
 	"regexp"
 	"runtime/debug"
 	"strings"
@@ -30,8 +33,8 @@ import (
 	"github.com/shutter-network/rolling-shutter/rolling-shutter/medley/db"
 	"github.com/shutter-network/rolling-shutter/rolling-shutter/shmsg"
 
-	"verif/harness/appx"
 	"github.com/jackc/pgx/v4/minipg"
+	"verif/harness/appx"
 )
 
 // fatalExit is panicked by the zerolog hook below in place of the os.Exit(1)
@@ -50,6 +53,9 @@ func init() {
 	// Only fatal events pass the level filter; the hook turns them into a
 	// recoverable panic before zerolog calls os.Exit.
 	zerolog.SetGlobalLevel(zerolog.FatalLevel)
+	if os.Getenv("EVX_LOG") != "" { // debugging aid: show the keyper's log
+		zerolog.SetGlobalLevel(zerolog.InfoLevel)
+	}
 	log.Logger = log.Logger.Hook(fatalHook{})
 }
 
@@ -61,10 +67,10 @@ type kcfg struct {
 	enc   *ecies.PrivateKey
 }
 
-func (c *kcfg) GetAddress() common.Address                 { return c.addr }
-func (c *kcfg) GetDKGPhaseLength() *dkgphase.PhaseLength   { return c.phase }
-func (c *kcfg) GetValidatorPublicKey() ed25519.PublicKey   { return c.val }
-func (c *kcfg) GetEncryptionKey() *ecies.PrivateKey        { return c.enc }
+func (c *kcfg) GetAddress() common.Address               { return c.addr }
+func (c *kcfg) GetDKGPhaseLength() *dkgphase.PhaseLength { return c.phase }
+func (c *kcfg) GetValidatorPublicKey() ed25519.PublicKey { return c.val }
+func (c *kcfg) GetEncryptionKey() *ecies.PrivateKey      { return c.enc }
 
 // FakeTM is the tendermint RPC client the keyper syncs from: Block(nil)
 // reports the last committed height, BlockResults(h) the recorded results.
@@ -128,16 +134,18 @@ type Sim struct {
 	EonHeight int64
 	EndHeight int64 // last block of the scenario
 
-	app    *app.ShutterApp
-	nonce  uint64
-	height int64 // the open block
-	cur    *coretypes.ResultBlockResults
-	tm     *FakeTM
-	pool   *pgxpool.Pool
-	cfg    *kcfg
-	state  *smobserver.ShuttermintState
-	script map[int64][]scripted
-	snaps  map[Phase]*snapshot
+	app       *app.ShutterApp
+	nonce     uint64
+	height    int64 // the open block
+	cur       *coretypes.ResultBlockResults
+	tm        *FakeTM
+	pool      *pgxpool.Pool
+	cfg       *kcfg
+	state     *smobserver.ShuttermintState
+	script    map[int64][]scripted
+	snaps     map[Phase]*snapshot
+	genesisDB *minipg.Snapshot
+	injectAt  map[Phase]int64
 
 	// ValidEvalForMe is a correctly encrypted, valid polynomial evaluation from
 	// member 0 to the keyper under test (for constructing events).
@@ -171,11 +179,7 @@ func NewSim() *Sim {
 	s.pool = pool
 	s.tm = &FakeTM{Blocks: map[int64]*coretypes.ResultBlockResults{}}
 
-	a, bb := u.NewApp(appx.Genesis{Members: s.Members, Threshold: 2})
-	s.app = a
-	s.height = 1
-	s.nonce = 5000
-	s.cur = &coretypes.ResultBlockResults{Height: 1, BeginBlockEvents: bb.Events}
+	s.genesisDB = pool.DB().Snapshot()
 
 	// --- scripted co-keypers -------------------------------------------------
 	s.Eon = 1
@@ -193,7 +197,11 @@ func NewSim() *Sim {
 			continue
 		}
 		p := puredkg.NewPureDKG(s.Eon, uint64(len(s.Members)), 2, uint64(idx))
+		// the co-keypers' polynomials are fixed (puredkg draws from crypto/rand.Reader)
+		realRand := crand.Reader
+		crand.Reader = &hashStream{seed: fmt.Sprintf("evx-co-keyper-%d", m)}
 		commitment, evals, err := p.StartPhase1Dealing()
+		crand.Reader = realRand
 		if err != nil {
 			panic(err)
 		}
@@ -221,8 +229,9 @@ func NewSim() *Sim {
 	s.script[apo] = []scripted{{2, shmsg.NewApology(s.Eon, []common.Address{u.Addrs[0]}, []*big.Int{others[2].Polynomial.EvalForKeyper(0)})}}
 
 	// --- undisturbed run, snapshots at the phase boundaries -----------------
+	s.injectAt = map[Phase]int64{Dealing: deal, Accusing: acc, Apologizing: apo}
 	snapAt := map[int64]Phase{deal: Dealing, acc: Accusing, apo: Apologizing}
-	s.state = smobserver.NewShuttermintState(s.cfg)
+	s.reset()
 	out := s.protect(func() {
 		for s.height <= s.EndHeight {
 			if p, ok := snapAt[s.height]; ok {
@@ -237,6 +246,41 @@ func NewSim() *Sim {
 		panic(fmt.Sprintf("evx: the undisturbed scenario does not complete a DKG: %+v", out))
 	}
 	return s
+}
+
+// reset puts the closed loop back to genesis: empty keyper database (schema
+// only), fresh application with block 1 open, fresh keyper state.
+func (s *Sim) reset() {
+	s.pool.DB().AbortAll()
+	s.pool.DB().Restore(s.genesisDB)
+	a, bb := s.U.NewApp(appx.Genesis{Members: s.Members, Threshold: 2})
+	s.app = a
+	s.height = 1
+	s.nonce = 5000
+	s.cur = &coretypes.ResultBlockResults{Height: 1, BeginBlockEvents: bb.Events}
+	s.tm.Blocks = map[int64]*coretypes.ResultBlockResults{}
+	s.tm.Last = 1
+	s.state = smobserver.NewShuttermintState(s.cfg)
+}
+
+// hashStream is a deterministic byte stream (SHA-256 in counter mode).
+type hashStream struct {
+	seed string
+	ctr  int
+	buf  []byte
+}
+
+func (h *hashStream) Read(p []byte) (int, error) {
+	for i := range p {
+		if len(h.buf) == 0 {
+			sum := sha256.Sum256([]byte(fmt.Sprintf("%s/%d", h.seed, h.ctr)))
+			h.ctr++
+			h.buf = sum[:]
+		}
+		p[i] = h.buf[0]
+		h.buf = h.buf[1:]
+	}
+	return len(p), nil
 }
 
 // detRand is a deterministic byte stream for the harness's own encryptions.
@@ -417,42 +461,33 @@ func (s *Sim) dkgResult() string {
 	return "dkg failed: " + digits.ReplaceAllString(r.Error.String, "N")
 }
 
-// Hand restores the snapshot of the given phase, injects the event into the
-// open block (the first block of that phase) and plays the rest of the
-// scenario: every later phase transition, the keyper's own reactions and
-// finalisation run with whatever the event left behind.
-func (s *Sim) Hand(p Phase, ev abcitypes.Event, last bool) Outcome {
-	sn := s.snaps[p]
-	s.restore(sn)
-	out := s.protect(func() {
-		first := true
-		for s.height <= s.EndHeight {
-			if first {
-				s.playBlock(&ev, last)
-				first = false
-			} else {
-				s.playBlock(nil, false)
-			}
-		}
-	})
-	if out.Kind != "ok" {
-		s.pool.DB().AbortAll()
-	}
-	out.DKG = s.dkgResult()
-	return out
+// Hand plays the scenario from genesis, injects the event into the first block
+// of the given DKG phase (for "dealing": the block after the one in which the
+// eon started) and plays on to the end: every later phase transition, the
+// keyper's own reactions and finalisation run with whatever the event left
+// behind. With restart, the run instead starts from the snapshot taken at that
+// block with a freshly constructed keyper state loaded from the database (a
+// keyper restarted just before the event arrives).
+func (s *Sim) Hand(p Phase, ev abcitypes.Event, last bool, restart bool) Outcome {
+	return s.run(p, []abcitypes.Event{ev}, last, restart)
 }
 
-// HandSeq is Hand for a sequence of events injected into consecutive blocks
-// starting at the snapshot's open block.
-func (s *Sim) HandSeq(p Phase, evs []abcitypes.Event) Outcome {
-	sn := s.snaps[p]
-	s.restore(sn)
+// HandSeq is Hand for a sequence of events injected into consecutive blocks.
+func (s *Sim) HandSeq(p Phase, evs []abcitypes.Event, restart bool) Outcome {
+	return s.run(p, evs, false, restart)
+}
+
+func (s *Sim) run(p Phase, evs []abcitypes.Event, last bool, restart bool) Outcome {
+	if restart {
+		s.restore(s.snaps[p])
+	} else {
+		s.reset()
+	}
+	at := s.injectAt[p]
 	out := s.protect(func() {
-		i := 0
 		for s.height <= s.EndHeight {
-			if i < len(evs) {
-				s.playBlock(&evs[i], false)
-				i++
+			if i := s.height - at; i >= 0 && i < int64(len(evs)) {
+				s.playBlock(&evs[i], last)
 			} else {
 				s.playBlock(nil, false)
 			}
@@ -469,4 +504,7 @@ func (s *Sim) HandSeq(p Phase, evs []abcitypes.Event) Outcome {
 func (s *Sim) MyAddr() common.Address { return s.cfg.addr }
 
 // PhaseHeight is the height of the block into which Hand injects.
-func (s *Sim) PhaseHeight(p Phase) int64 { return s.snaps[p].height }
+func (s *Sim) PhaseHeight(p Phase) int64 { return s.injectAt[p] }
+
+// DumpDB renders tables of the keyper database (debugging aid).
+func (s *Sim) DumpDB(tables ...string) string { return s.pool.DB().Dump(tables...) }
